@@ -1859,6 +1859,10 @@ SyntaxVisitor::Action TypeChecker::visitAssignmentExpression(
     VISIT(node->right());
     auto rightTy = valueTypeOf(ty_);
 
+    // In a compound assignment, the left operand takes part in the operation
+    // with its value: an enumerated type, as the integer type it is (6.7.2.2-4).
+    auto leftOprndTy = enumeratedTypeAsInt(leftTy);
+
     switch (node->operatorToken().kind()) {
         case SyntaxKind::EqualsToken:
             if (!isTypeAssignableFromOtherType(leftTy, rightTy, node->right())) {
@@ -1868,20 +1872,20 @@ SyntaxVisitor::Action TypeChecker::visitAssignmentExpression(
             return typeChecked(node, leftTy);
         case SyntaxKind::AsteriskEqualsToken:
         case SyntaxKind::SlashEqualsToken:
-            return visitBinaryExpression_MultiplicationOrDivision(node, leftTy, rightTy);
+            return visitBinaryExpression_MultiplicationOrDivision(node, leftOprndTy, rightTy);
         case SyntaxKind::PercentEqualsToken:
-            return visitBinaryExpression_Remainder(node, leftTy, rightTy);
+            return visitBinaryExpression_Remainder(node, leftOprndTy, rightTy);
         case SyntaxKind::PlusEqualsToken:
-            return visitBinaryExpression_Addition(node, leftTy, rightTy);
+            return visitBinaryExpression_Addition(node, leftOprndTy, rightTy);
         case SyntaxKind::MinusEqualsToken:
-            return visitBinaryExpression_Subtraction(node, leftTy, rightTy);
+            return visitBinaryExpression_Subtraction(node, leftOprndTy, rightTy);
         case SyntaxKind::LessThanLessThanEqualsToken:
         case SyntaxKind::GreaterThanGreaterThanEqualsToken:
-            return visitBinaryExpression_BitwiseShift(node, leftTy, rightTy);
+            return visitBinaryExpression_BitwiseShift(node, leftOprndTy, rightTy);
         case SyntaxKind::AmpersandEqualsToken:
         case SyntaxKind::BarEqualsToken:
         case SyntaxKind::CaretEqualsToken:
-            return visitBinaryExpression_Bitwise(node, leftTy, rightTy);
+            return visitBinaryExpression_Bitwise(node, leftOprndTy, rightTy);
         default:
             PSY_ASSERT_1(false);
             return Action::Quit;
